@@ -68,6 +68,7 @@ class Check:
         self.replays = 0
         self.paths = 0
         self.extra = {}
+        self._replay_cache = {}
 
     # -------------------------------------------------------------- records
     def note_interp(self, I):
@@ -94,11 +95,18 @@ class Check:
 
     def counterexample(self, name, site, what, replay, model_desc):
         """Handle a SAT obligation: replay natively, then classify."""
-        self.replays += 1
-        try:
-            rep = replay() if replay else {"reproduced": False, "detail": "no replay available"}
-        except Exception as ex:  # replay machinery failure = inconclusive
-            rep = {"reproduced": False, "detail": f"replay raised {ex!r}"}
+        # one native replay per site: further models at the same site share its verdict
+        if site in self._replay_cache:
+            rep = self._replay_cache[site]
+            if rep.get("reproduced"):
+                return "known" if self.is_known(site) else "violation"
+        else:
+            self.replays += 1
+            try:
+                rep = replay() if replay else {"reproduced": False, "detail": "no replay available"}
+            except Exception as ex:  # replay machinery failure = inconclusive
+                rep = {"reproduced": False, "detail": f"replay raised {ex!r}"}
+            self._replay_cache[site] = rep
         if not rep.get("reproduced"):
             self.inconclusive.append(
                 f"{name}: solver model did not reproduce natively ({rep.get('detail', '')[:300]}); model={model_desc}")
